@@ -70,10 +70,22 @@ class Prog:
     def __init__(self, cls, desc, params, stmt, expect):
         self.cls, self.desc, self.params, self.stmt, self.expect = cls, desc, params, stmt, expect
 
+# module paths under which the supertrait that seals KeyType / Purpose / SealingKey might be exported
+SEALED_PATHS = ["paseto_core::sealed::Sealed", "paseto_core::Sealed", "paseto_core::version::Sealed", "paseto_core::key::Sealed",
+                "paseto_core::version::sealed::Sealed", "paseto_core::key::sealed::Sealed", "paseto_core::private::Sealed",
+                "paseto_core::version::private::Sealed", "paseto_core::tokens::Sealed", "paseto_core::encodings::Sealed"]
+
 def catalogue():
     """(class, description, fn parameters, marked statement, model verdict)"""
     progs = []
     add = lambda *a: progs.append(Prog(*a))
+    # --- the key kinds and purposes are a closed set: a downstream crate can neither name the sealing
+    # supertrait nor add a kind / purpose of its own (which would receive the back end's inner key)
+    for path in SEALED_PATHS:
+        add("closed-set-name", f"name the sealing supertrait as {path}", "", f"{{ use {path} as _; }}", False)
+        add("closed-set-name", f"implement {path} for a downstream type", "", f"{{ struct Mine; impl {path} for Mine {{}} }}", False)
+    add("closed-set-impl", "implement KeyType for a downstream type", "", "{ struct Mine; impl paseto_core::key::KeyType for Mine { const HEADER: &'static str = \".mine.\"; const ID_HEADER: &'static str = \".mid.\"; } }", False)
+    add("closed-set-impl", "implement Purpose for a downstream type", "", "{ struct Mine; impl paseto_core::version::Purpose for Mine { type SealingKey = Local; const HEADER: &'static str = \".mine.\"; } }", False)
     # --- seal / unseal across every pair of back-end crates, purposes and key kinds
     for kb, tb in itertools.product(BACKENDS, BACKENDS):
         same_v = kb[0] == tb[0]
@@ -129,6 +141,7 @@ def catalogue():
             for tname, bound in FORBIDDEN_KEY_TRAITS:
                 ok = (tname in ("Display", "ToString") and kind == "Public") or (tname == "Clone")
                 add(f"key-trait-{tname}", f"{b[0]} {kind} key used where `{bound}` is required", kk, f"needs::<Key<{vty(b)}, {kind}>, dyn Probe{tname}>(k);" if False else f"fn needs<T: {bound}>(_: &T) {{}} needs(k);", ok)
+        # (sealed marker traits: see the `sealed-trait-name` class after the loop)
         # --- secret key material cannot travel inside a token: no secret kind of key is a footer or a payload
         # (public kinds are left without a verdict: carrying a public key would leak nothing)
         for kind in ("Local", "Secret", "PkeSecret"):
@@ -287,13 +300,36 @@ def main():
     bad_lines = {}
     for line, code, msg in errors:
         # attribute the error to the program whose body contains the line
-        pid = mark.get(line) or mark.get(line + 1) or mark.get(line - 1)
+        pid = next((mark[l] for l in (line, line + 1, line - 1) if l in mark), None)
         bad_lines.setdefault(pid, []).append((code, msg))
     for pid, errs in bad_lines.items():
         if pid is None:
             harness.append(f"unattributed error in accept crate: {errs[0]}"); continue
         p = by_id[pid]
         report(f"C18/{p.cls}/correct-program-rejected", f"well-typed program does not compile: {p.desc}: `{p.stmt}` -> {errs[0][0]} {errs[0][1][:120]}", {"class": p.cls, "description": p.desc, "stmt": p.stmt, "params": p.params, "expect": "compiles"})
+    # crate 3 (first, it is small): programs that must fail at NAME RESOLUTION (private / missing paths);
+    # kept apart because resolution errors can end a compilation before the type errors of crate 2
+    names = [p for p in rej if p.cls.startswith("closed-set-")]
+    rej = [p for p in rej if not p.cls.startswith("closed-set-")]
+    if names:
+        # one crate per program: an unresolved path ends the compilation before the privacy errors
+        # of its neighbours would be reported
+        hit = {}
+        for i, p in enumerate(names):
+            d, mark = emit(f"names{sub}-{i}", "c18-names", [p])
+            rc, errors, dep, stderr = check(d)
+            if dep:
+                print(f"INCONCLUSIVE cargo check failed outside the generated programs: {dep}"); sys.exit(2)
+            for line, code, msg in errors:
+                pid = next((mark[l] for l in (line, line + 1, line - 1) if l in mark), None)
+                if pid is not None:
+                    hit.setdefault(pid, []).append(code)
+        for p in names:
+            codes = hit.get(p.pid)
+            if not codes:
+                report(f"C18/{p.cls}/misuse-compiles", f"forbidden program compiles: {p.desc}: `{p.stmt}`", {"class": p.cls, "description": p.desc, "stmt": p.stmt, "params": p.params, "expect": "rejected"})
+            elif not any(c in {"E0603", "E0432", "E0433", "E0405", "E0412", "E0277", "E0407", "E0437", "E0438", "E0046", "E0117"} for c in codes):
+                harness.append(f"P{p.pid} {p.cls}: rejected with unexpected code(s) {codes} (probe defect, not a pass)")
     # crate 2: everything predicted to be rejected
     d, mark = emit("reject" + sub, "c18-reject", rej)
     rc, errors, dep, stderr = check(d)
@@ -301,10 +337,7 @@ def main():
         print(f"INCONCLUSIVE cargo check failed outside the generated programs: {dep}"); sys.exit(2)
     hit = {}
     for line, code, msg in errors:
-        pid = mark.get(line)
-        if pid is None:
-            # multi-line spans: look one line around
-            pid = mark.get(line + 1) or mark.get(line - 1)
+        pid = next((mark[l] for l in (line, line + 1, line - 1) if l in mark), None)
         if pid is None:
             harness.append(f"error outside a marked line ({line}): {code} {msg[:100]}"); continue
         hit.setdefault(pid, []).append(code)
@@ -318,6 +351,7 @@ def main():
             samples.append({"program": f"fn p({p.params}) {{ {p.stmt} }}", "model": "rejected", "rustc": codes[0]})
     for p in acc[:: max(1, len(acc) // 5)][:5]:
         samples.append({"program": f"fn p({p.params}) {{ {p.stmt} }}", "model": "compiles", "rustc": "ok" if p.pid not in bad_lines else "error"})
+    rej = rej + names
     classes = {}
     for p in progs:
         classes[f"{p.cls}:{'accept' if p.expect else 'reject'}"] = classes.get(f"{p.cls}:{'accept' if p.expect else 'reject'}", 0) + 1
@@ -343,7 +377,7 @@ def main():
     write_evidence("C18", tier, "exploration", {
         "evaluations": len(progs),
         "distinct_nontrivial": len(rej) + sum(1 for p in acc if p.cls in ("seal", "unseal", "wrap-pie", "seal-key", "unseal-key")),
-        "rule": "generated catalogue: product of (back-end crate of the key) x (back-end crate of the token) x purpose x key kind {Local, Public, Secret, PkePublic, PkeSecret} x operation {seal, unseal, sign/encrypt/verify/decrypt aliases (+_with_aad), wrap_pie (by kind of wrapped and wrapping key), password_wrap, seal-key, unseal-key, Display / to_string / Debug / serde / field access / AsRef / == on keys, every key kind against a list of trait bounds through which key material could leak or be compared implicitly (Display, ToString, Debug, LowerHex, Serialize, Hash, PartialEq, PartialOrd, AsRef<[u8]>, Borrow<[u8]>, Deref<Target=[u8]>, Copy, Default; Clone allowed), Display / to_string / serde on unsealed tokens (also through Deref, deref coercion and method auto-deref onto printable claims), private fields of sealed tokens, Debug and conversion traits on sealed tokens, purpose / kind / version coercions}; each program is one function whose marked statement carries the (mis)use; a type model written from the property text predicts compile / reject; rustc is the ground truth: every predicted-reject program must have an error on its marked line (codes E0277/E0308/E0599/E0616/E0609/E0369), every predicted-compile program (the well-typed twins) must compile. Non-trivial iff predicted reject, or a well-typed twin of a key/token operation; distinct by program text",
+        "rule": "generated catalogue: product of (back-end crate of the key) x (back-end crate of the token) x purpose x key kind {Local, Public, Secret, PkePublic, PkeSecret} x operation {seal, unseal, sign/encrypt/verify/decrypt aliases (+_with_aad), wrap_pie (by kind of wrapped and wrapping key), password_wrap, seal-key, unseal-key, Display / to_string / Debug / serde / field access / AsRef / == on keys, every key kind against a list of trait bounds through which key material could leak or be compared implicitly (Display, ToString, Debug, LowerHex, Serialize, Hash, PartialEq, PartialOrd, AsRef<[u8]>, Borrow<[u8]>, Deref<Target=[u8]>, Copy, Default; Clone allowed), Display / to_string / serde on unsealed tokens (also through Deref, deref coercion and method auto-deref onto printable claims), private fields of sealed tokens, Debug and conversion traits on sealed tokens, purpose / kind / version coercions, secret keys as footer / claims, naming or implementing the sealing supertrait under ten candidate paths and implementing KeyType / Purpose downstream}; each program is one function whose marked statement carries the (mis)use; a type model written from the property text predicts compile / reject; rustc is the ground truth: every predicted-reject program must have an error on its marked line (codes E0277/E0308/E0599/E0616/E0609/E0369), every predicted-compile program (the well-typed twins) must compile. Non-trivial iff predicted reject, or a well-typed twin of a key/token operation; distinct by program text",
         "samples": samples,
         "class_histogram": classes,
         "programs": len(progs), "predicted_reject": len(rej), "predicted_compile": len(acc),
